@@ -290,7 +290,9 @@ class CSSStyleSheet(cssutils.stylesheets.StyleSheet):
             rule.cssText = self._tokensupto2(tokenizer, token)
             if rule.wellformed:
                 self.insertRule(rule)
-            return 3
+                return 3
+            # an ignored rule does not end the @import / @namespace section
+            return max(1, expected or 0)
 
         def mediarule(expected, seq, token, tokenizer):
             # parse and consume tokens in any case
@@ -298,7 +300,9 @@ class CSSStyleSheet(cssutils.stylesheets.StyleSheet):
             rule.cssText = self._tokensupto2(tokenizer, token)
             if rule.wellformed:
                 self.insertRule(rule)
-            return 3
+                return 3
+            # an ignored rule does not end the @import / @namespace section
+            return max(1, expected or 0)
 
         def pagerule(expected, seq, token, tokenizer):
             # parse and consume tokens in any case
@@ -306,7 +310,9 @@ class CSSStyleSheet(cssutils.stylesheets.StyleSheet):
             rule.cssText = self._tokensupto2(tokenizer, token)
             if rule.wellformed:
                 self.insertRule(rule)
-            return 3
+                return 3
+            # an ignored rule does not end the @import / @namespace section
+            return max(1, expected or 0)
 
         def unknownrule(expected, seq, token, tokenizer):
             # parse and consume tokens in any case
@@ -335,7 +341,9 @@ class CSSStyleSheet(cssutils.stylesheets.StyleSheet):
             rule.cssText = self._tokensupto2(tokenizer, token)
             if rule.wellformed:
                 self.insertRule(rule)
-            return 3
+                return 3
+            # an ignored rule does not end the @import / @namespace section
+            return max(1, expected or 0)
 
         # save for possible reset
         oldCssRules = self.cssRules
